@@ -70,13 +70,17 @@ Relate ==
 CallOrder == LET ps == SelectSeq([p \in DOMAIN calls |-> p], LAMBDA p : calls[p] # "notif" /\ Answered(p))
              IN [k \in DOMAIN ps |-> calls[ps[k]]]
 ArrayOrder == [j \in DOMAIN doc.els |-> doc.els[j].id]
-\* The attribution claim is made for accepted strict responses without null-id elements; non-strict mode and
-\* null-id responses inside an array are explicit don't-care regions (DESIGN 3.3): any order is admitted there.
+\* The attribution claim is made for accepted strict responses; non-strict mode is an explicit don't-care region
+\* (DESIGN 3.3): any order is admitted there.
 Clean == strict /\ \A j \in DOMAIN doc.els : doc.els[j].id # "null"
+\* strict mode with null-id elements in the array: position k is still the k-th answered call - the elements nobody asked for
+\* (null ids) come after the answers
+CallsFirst(t) == Len(t) >= Len(CallOrder) /\ SubSeq(t, 1, Len(CallOrder)) = CallOrder
 \* Known deviation "ServerOrderResults": BatchResponse.result / indexing follow the server's array order
 Deliver(t) == /\ pc = "related" /\ tuple = <<>> /\ mode = "batch" /\ doc.k = "array" /\ doc.els # <<>>
               /\ tuple' = t
               /\ Clean => (t = CallOrder \/ ("ServerOrderResults" \in Deviations /\ t = ArrayOrder))
+              /\ strict => (CallsFirst(t) \/ ("ServerOrderResults" \in Deviations /\ t = ArrayOrder))
               /\ UNCHANGED <<mode, strict, calls, doc, pc, fail, links>>
 Next == Decode \/ Deserialise \/ Relate \/ Deliver(CallOrder)
 Spec == [][Next]_vars
@@ -91,5 +95,6 @@ MalformedIsDeser == pc \in {"related", "failed"} => ((doc.k = "notjson" \/ Malfo
 RelatedLinked == pc = "related" =>
     \A j \in DOMAIN links : links[j] # 0 => (mode = "single" \/ calls[links[j]] = doc.els[j].id)
 \* results by position / as a tuple follow the order of the calls
-PositionalByRequestOrder == (tuple # <<>> /\ Clean /\ "ServerOrderResults" \notin Deviations) => tuple = CallOrder
+PositionalByRequestOrder == /\ (tuple # <<>> /\ Clean /\ "ServerOrderResults" \notin Deviations) => tuple = CallOrder
+                            /\ (tuple # <<>> /\ strict /\ "ServerOrderResults" \notin Deviations) => CallsFirst(tuple)
 =============================================================================
